@@ -86,7 +86,10 @@ What is PROVED here:
                                  `sortedStore_slice`: the slice is key-sorted (proved, Lemmas/ManifestSorted.lean);
   * `ctxWF_not_from_conformance` `CtxWF` is NOT derivable from `ConformsRequest` (a context list binding a key twice conforms).
 
-What REMAINS: the "keeps more entities" half of `slice_monotone`; `typedAst` is a specification-level definition (Lemmas/ManifestValid.lean, written
+What REMAINS: the "keeps more entities" half of `slice_monotone` (store level: `t ≤ t'` ⇒ slice by `t` is a sub-store of the slice by `t'`):
+`slice_monotone_entities_needs_flags` proves that it is FALSE for `AccessTrie.le` alone (the order ignores the `is_entity_type`
+annotations; two tries requesting the same paths with different annotations give incomparable slices), the positive statement for
+tries with agreeing annotations is open; `typedAst` is a specification-level definition (Lemmas/ManifestValid.lean, written
 from typecheck.rs; the differential run takes the typed ASTs from Rust and does not diff `typedAst` against them).
 `FullStatement` (whose hypothesis `p.condition = te.erase` restricts it to typed ASTs without short-circuit transformation)
 is FALSE for the analysed code outside the stated exclusions' complement in two ways found by this check (see
@@ -342,6 +345,46 @@ theorem slicer_needs_agreeing_annotations :
   intro p req es t pol
   refine ⟨by simp [t, RootsWF, AccessTrie.WF, fieldsWF, lookupField, AccessTrie.new], by decide +kernel, by decide +kernel,
     by decide +kernel⟩
+
+/-! ## "a larger trie keeps more ENTITIES": the unconditional statement is false -/
+
+namespace MonoCex
+def p : EntityUID := ⟨"User", "a"⟩
+def req : Request := ⟨p, ⟨"Action", "view"⟩, ⟨"Doc", "d"⟩, []⟩
+def store : Entities := [(p, { attrs := [("r", .record [("x", .prim (.int 1))])], ancestors := [], tags := [] })]
+/-- `principal.r.x` with `r` annotated record-typed (agrees with the data) -/
+def small : RootAccessTrie := [(.var .principal, .mk [("r", .mk [("x", .new)] [] false false)] [] false true)]
+/-- the same paths with `r` annotated entity-typed (disagrees with the data) -/
+def large : RootAccessTrie := [(.var .principal, .mk [("r", .mk [("x", .new)] [] false true)] [] false true)]
+end MonoCex
+
+/-- The store-level half of monotonicity ("`t ≤ t'` ⇒ the slice computed from `t` is a sub-store of the slice computed
+from `t'`") does NOT hold for the order `AccessTrie.le` / `rootsLe` alone, which compares requested paths and the
+`is_ancestor` marks but not the `is_entity_type` annotations: two tries that request the same paths (each is `≤` the other)
+and differ only in the annotation of `r` give slices of which the first is not a sub-store of the second — under the
+entity-typed annotation `prune_child_entity_dereferences` drops the request for `r.x`, so the "larger" slice has `r = {}`
+while the "smaller" one has `r = {x: 1}`.  So any true statement needs a side condition on the annotations (agreeing
+`is_entity_type` flags at corresponding nodes, or `FlagsRoots` for both tries); the positive theorem under that condition is
+NOT proved here. -/
+theorem slice_monotone_entities_needs_flags :
+    rootsLe MonoCex.small MonoCex.large ∧ rootsLe MonoCex.large MonoCex.small ∧
+    ¬ SubStore (sliceStorePure MonoCex.large MonoCex.req MonoCex.store) (sliceStorePure MonoCex.small MonoCex.req MonoCex.store) := by
+  refine ⟨?_, ?_, ?_⟩
+  · simp [MonoCex.small, MonoCex.large, rootsLe, AccessTrie.le, fieldsLe, lookupRoot, lookupField, AccessTrie.children, AccessTrie.new]
+  · simp [MonoCex.small, MonoCex.large, rootsLe, AccessTrie.le, fieldsLe, lookupRoot, lookupField, AccessTrie.children, AccessTrie.new]
+  · intro h
+    have e1 : sliceStorePure MonoCex.small MonoCex.req MonoCex.store =
+        [(MonoCex.p, { attrs := [("r", .record [("x", .prim (.int 1))])], ancestors := [], tags := [] })] := rfl
+    have e2 : sliceStorePure MonoCex.large MonoCex.req MonoCex.store =
+        [(MonoCex.p, { attrs := [("r", .record [])], ancestors := [], tags := [] })] := rfl
+    rw [e1, e2] at h
+    obtain ⟨d, hd, htrim, _⟩ := h MonoCex.p { attrs := [("r", .record [("x", .prim (.int 1))])], ancestors := [], tags := [] } rfl
+    have hd' : d = { attrs := [("r", .record [])], ancestors := [], tags := [] } := by
+      have : Entities.find? [(MonoCex.p, ({ attrs := [("r", .record [])], ancestors := [], tags := [] } : EntityData))] MonoCex.p
+          = some { attrs := [("r", .record [])], ancestors := [], tags := [] } := rfl
+      rw [this] at hd; exact (Option.some.inj hd).symm
+    subst hd'
+    simp [TrimKVs, Trim, lookupKV] at htrim
 
 /-! ## end to end: analysis, `to_typed`, slicer, authorizer -/
 
